@@ -113,12 +113,14 @@ pub fn build(c: &Case) -> Ty {
 }
 
 fn enum_text(c: &Case) -> String {
-    let mut items: Vec<String> = (0..c.root).map(|i| format!("e{i}")).collect();
+    // `versions` on an ENUMERATED: explicit numbers, the additions numbered below the root items (X.680 20.7's own example
+    // `{ a, b(3), ..., c(1) }`): the order of the items and the place of the marker are those of the source, not of the numbers
+    let mut items: Vec<String> = (0..c.root).map(|i| if c.versions { format!("e{i}({})", 10 + 2 * i) } else { format!("e{i}") }).collect();
     if c.marker {
         items.push("...".into());
     }
     for j in 0..c.adds.len() {
-        items.push(format!("e{}", c.root + j));
+        items.push(if c.versions { format!("e{}({})", c.root + j, 1 + 2 * j) } else { format!("e{}", c.root + j) });
     }
     let e = format!("ENUMERATED {{ {} }}", items.join(", "));
     let body = if c.nested { format!("A ::= SEQUENCE {{ n {e} }}") } else { format!("A ::= {e}") };
@@ -203,6 +205,9 @@ impl Prop for C05 {
                     for implied in [false, true] {
                         out.push(Case { kind: "ENUMERATED".into(), root: r, marker: false, adds: vec![], versions: false, nested, implied, tagdef: "AUTOMATIC".into(), included: 0 });
                         out.push(Case { kind: "ENUMERATED".into(), root: r, marker: true, adds: vec![0; a], versions: false, nested, implied, tagdef: "AUTOMATIC".into(), included: 0 });
+                        if a >= 1 {
+                            out.push(Case { kind: "ENUMERATED".into(), root: r, marker: true, adds: vec![0; a], versions: true, nested, implied, tagdef: "AUTOMATIC".into(), included: 0 });
+                        }
                     }
                 }
             }
